@@ -617,8 +617,145 @@ def rule_e(ctx):
     raise AnalysisError('view-layer scope managers vanished')
 
 
+ESCAPERS = ('escape', '_escape_attribute')
+
+
+def _is_escape_call(e):
+  return isinstance(e, ast.Call) and (A.call_name(e) or '').split('.')[-1] in ESCAPERS
+
+
+def rule_f(ctx):
+  """"... appears only as escaped text or as an escaped attribute value": Html.element is the
+  one place that writes attributes, so every interpolation of the form `name="{expr}"` in it
+  writes an expression that went through an escaper (directly, or a local assigned from
+  one).  `style` is exempt: its text is assembled by style_str from the library's own CSS
+  property names and the values of view options.  Pre-fix neither the class attribute nor
+  the free-form properties (href, ...) were escaped: a class named `E<i>"x` or a link
+  `"><script>` ended the attribute."""
+  idx = ctx.index
+  f = idx.func('pyglove.core.views.html.base.Html.element')
+  n = 0
+  for js in [x for x in ast.walk(f.node) if isinstance(x, ast.JoinedStr)]:
+    parts = js.values
+    for i, part in enumerate(parts):
+      if not (isinstance(part, ast.FormattedValue) and i > 0 and isinstance(parts[i - 1], ast.Constant)
+              and str(parts[i - 1].value).endswith('="')):
+        continue
+      attr = str(parts[i - 1].value).strip().rstrip('="').split(' ')[-1] or '<dynamic>'
+      if attr == 'style':
+        continue
+      e = part.value
+      ok = _is_escape_call(e)
+      if not ok and isinstance(e, ast.Name):
+        defs = [v for _, v in D.defs_of(f.node, e.id) if v is not None]
+        # the loop variable of `for k, v in properties.items()` is re-assigned from an escaper before use
+        ok = bool(defs) and any(_is_escape_call(v) for v in defs) and all(
+            _is_escape_call(v) or not isinstance(v, (ast.Constant, ast.JoinedStr)) for v in defs)
+        ok = ok and any(_is_escape_call(v) for v in defs)
+      n += 1
+      ctx.ob('C20.f', f'Html.element#attribute:{attr}', ok,
+             f'the value written into the `{attr}` attribute went through an escaper', f'{f.module.relpath}:{js.lineno}',
+             f'`{A.unparse(js, 60)}` writes `{A.unparse(e)}` raw: a value containing `"` ends the attribute and can open an '
+             f'element of its own')
+  if n < 2:
+    raise AnalysisError(f'Html.element: only {n} attribute interpolations found')
+
+
+def rule_g(ctx):
+  """Class names are data: wherever the html views put a class name (type(x).__name__,
+  __class__.__name__, __qualname__) into the children of an element - directly, through a
+  nested helper that returns it, or as the right operand of `title or helper(...)` - it is
+  wrapped in Html.escape.  (A class created with type('E<i>"x', ...) opened an <i> element
+  in the summary title.)"""
+  idx = ctx.index
+  def namey(e):
+    return any(isinstance(x, ast.Attribute) and x.attr in ('__name__', '__qualname__') for x in ast.walk(e))
+  n = 0
+  for f in idx.all_funcs():
+    if not f.module.name.startswith('pyglove.core.views.html.') or f.module.relpath.endswith('_test.py'):
+      continue
+    helpers = {h.name for h in ast.walk(f.node) if isinstance(h, ast.FunctionDef) and h is not f.node
+               and any(isinstance(r, ast.Return) and r.value is not None and namey(r.value) for r in ast.walk(h))}
+    for c in A.calls_in(f.node):
+      if (A.call_name(c) or '').split('.')[-1] != 'element' or len(c.args) < 2 or not isinstance(c.args[1], (ast.List, ast.Tuple)):
+        continue
+      for child in c.args[1].elts:
+        # look at every sub-expression that is not under an escaper
+        stack = [child]
+        while stack:
+          e = stack.pop()
+          if _is_escape_call(e):
+            continue
+          hit = None
+          if isinstance(e, ast.Call) and A.call_name(e) in helpers:
+            hit = A.unparse(e, 50)
+          elif isinstance(e, (ast.Attribute, ast.JoinedStr)) and namey(e):
+            hit = A.unparse(e, 50)
+          if hit is not None:
+            n += 1
+            ctx.ob('C20.g', f'{f.qualname}#class-name-text:{n}', False,
+                   'a class name written as element content is escaped', f'{f.module.relpath}:{e.lineno}',
+                   f'`{hit}` reaches the element content unescaped: type(\'E<i>\', ...) opens an <i> element')
+            continue
+          if isinstance(e, (ast.Lambda, ast.FunctionDef)):
+            continue
+          stack.extend(ast.iter_child_nodes(e))
+  ctx.ob('C20.g', 'html-views#class-names', True, f'{n} unescaped class-name contents found', 'pyglove/core/views/html/tree_view.py:1')
+
+
+def rule_h(ctx):
+  """Rendering does not modify what it was given - including the options it inherits:
+  utils.merge_tree(dest, src) patches dest IN PLACE at every depth, so a dest that is only a
+  shallow copy (`x.copy()`, `dict(x)`) of a dict shared with other nodes still shares its
+  nested dicts with them.  In the html views no merge_tree is applied to such a shallow copy
+  (utils.merge works on copies).  `get_kwargs` did: a `child_config` with `extra_flags` for
+  one child changed the flags of its later siblings."""
+  idx = ctx.index
+  n = 0
+  for f in idx.all_funcs():
+    if not f.module.name.startswith('pyglove.core.views.') or f.module.relpath.endswith('_test.py'):
+      continue
+    for c in A.calls_in(f.node):
+      if (A.call_name(c) or '').split('.')[-1] != 'merge_tree' or not c.args or not isinstance(c.args[0], ast.Name):
+        continue
+      dest = c.args[0].id
+      defs = [v for _, v in D.defs_of(f.node, dest) if v is not None]
+      shallow = [v for v in defs if isinstance(v, ast.Call) and (
+          ((A.call_name(v) or '').endswith('.copy') and not (A.call_name(v) or '').startswith('copy.')) or A.call_name(v) == 'dict')]
+      n += 1
+      ctx.ob('C20.h', f'{f.qualname}#merge-into-shallow-copy', not shallow,
+             'no in-place deep merge into a shallow copy of a shared dict', f'{f.module.relpath}:{c.lineno}',
+             f'`{A.unparse(c, 60)}` with `{dest} = {A.unparse(shallow[0], 40) if shallow else ""}`: the nested dicts are still the '
+             f'caller\'s - child_config={{a: {{extra_flags: ...}}}} leaks into the siblings of `a`')
+  ctx.ob('C20.h', 'views#merge_tree-uses', True, f'{n} merge_tree calls with a local destination examined', 'pyglove/core/views/html/tree_view.py:1')
+
+
+def rule_i(ctx):
+  """Every key is present in the output - as itself: the tree view addresses a child by
+  KeyPath(key, root_path).  `root_path + key` PARSES a str key (C10.k), so the key 'a.b' was
+  shown as `b`, 'x[0]' as `0`, and '[' made the rendering raise.  In the html views no path
+  is built by adding a variable key to a path (adding a literal path string is fine)."""
+  idx = ctx.index
+  n = 0
+  for f in idx.all_funcs():
+    if not f.module.name.startswith('pyglove.core.views.html.') or f.module.relpath.endswith('_test.py'):
+      continue
+    for b in ast.walk(f.node):
+      if isinstance(b, ast.BinOp) and isinstance(b.op, ast.Add) and isinstance(b.left, ast.Name) \
+          and b.left.id in ('root_path', 'path', 'child_path', 'parent_path') and not isinstance(b.right, ast.Constant):
+        n += 1
+        ctx.ob('C20.i', f'{f.qualname}#path-plus-key:{A.unparse(b.right, 20)}', False,
+               'a child path in the html views is KeyPath(key, root_path)', f'{f.module.relpath}:{b.lineno}',
+               f'`{A.unparse(b)}` parses a str key: the key \'a.b\' is rendered as `b`, and \'[\' raises "KeyPath parse failed"')
+  ctx.ob('C20.i', 'html-views#child-paths', True, f'{n} `path + key` constructions found', 'pyglove/core/views/html/tree_view.py:1')
+
+
 def run(ctx):
   ctx.consult(*FILES)
+  rule_f(ctx)
+  rule_g(ctx)
+  rule_h(ctx)
+  rule_i(ctx)
   # the scope that carries the view options never writes into the enclosing scope's value
   # (C17.g, decided here for views.base.view_options: leaked child options drop keys and leaves)
   from sa.rules import c17 as _c17
